@@ -165,3 +165,569 @@ Proof.
     + exists (t_source t). split; [exact Ha|]. split; [exact Hb|left; reflexivity].
     + exists tg. split; [exact Ha|]. split; [exact Hc|right; exact Hb].
 Qed.
+
+(* ================================================================== 3. the loop over the descendants, host side (goal 2) *)
+Lemma eres_ok_false : forall r, negb (eres_eqb r EOk) = false <-> r = EOk.
+Proof. intros []; simpl; split; congruence. Qed.
+
+Lemma eres_ok_true : forall r, negb (eres_eqb r EOk) = true <-> r <> EOk.
+Proof. intros []; simpl; split; congruence. Qed.
+
+(* what one iteration hands to add_state: the (shared) state object and the parent name *)
+Definition entry := (state * option name)%type.
+Definition e_name (e : entry) : name := s_name (fst e).
+
+Fixpoint add_entries (h : chart) (E : list entry) : chart * eres :=
+  match E with
+  | [] => (h, EOk)
+  | e :: E' => let '(h1, r) := add_state h (fst e) (snd e) in
+               if negb (eres_eqb r EOk) then (h1, r) else add_entries h1 E'
+  end.
+
+(* the guest side of the loop alone: successive rename_state calls, and what is read off after each *)
+Fixpoint guest_entries (names : list name) (rho : list (name * name)) (g : chart) : chart * list entry * eres :=
+  match names with
+  | [] => (g, [], EOk)
+  | n :: rest =>
+      let new := rho_apply rho n in
+      let '(g1, r1) := rename_state g n new in
+      if negb (eres_eqb r1 EOk) then (g1, [], r1) else
+      match state_for g1 new with
+      | None => (g1, [], EStatechartError)
+      | Some st => let '(g', E, r) := guest_entries rest rho g1 in (g', (st, parent_for g1 new) :: E, r)
+      end
+  end.
+
+(* a successful run of copy_states = all the renamings on the guest copy, and the add_state calls on the host *)
+Lemma copy_states_decompose : forall names rho g h added g' h' added',
+  copy_states names rho g h added = (g', h', added', EOk) <->
+  exists E, guest_entries names rho g = (g', E, EOk) /\ add_entries h E = (h', EOk) /\
+            added' = added ++ map (rho_apply rho) names.
+Proof.
+  induction names as [|n rest IH]; intros rho g h added g' h' added'; simpl.
+  - split.
+    + intros H. inv H. exists []. rewrite app_nil_r. auto.
+    + intros [E [H1 [H2 H3]]]. inv H1. simpl in H2. inv H2. rewrite app_nil_r. reflexivity.
+  - destruct (rename_state g n (rho_apply rho n)) as [g1 r1].
+    destruct (negb (eres_eqb r1 EOk)) eqn:Er1.
+    { apply eres_ok_true in Er1. split; [intros H; inv H; congruence|].
+      intros [E [H1 _]]. inv H1. congruence. }
+    destruct (state_for g1 (rho_apply rho n)) as [st|] eqn:Est.
+    2:{ split; [discriminate|]. intros [E [H1 _]]. discriminate. }
+    destruct (add_state h st (parent_for g1 (rho_apply rho n))) as [h1 r2] eqn:Eadd.
+    destruct (negb (eres_eqb r2 EOk)) eqn:Er2.
+    { apply eres_ok_true in Er2. split; [intros H; inv H; congruence|].
+      intros [E [H1 [H2 _]]]. destruct (guest_entries rest rho g1) as [[g'' E''] r'']. inv H1.
+      simpl in H2. rewrite Eadd in H2. destruct (negb (eres_eqb r2 EOk)) eqn:E2.
+      - inv H2. congruence.
+      - apply eres_ok_false in E2. congruence. }
+    rewrite IH. split.
+    + intros [E [H1 [H2 H3]]]. exists ((st, parent_for g1 (rho_apply rho n)) :: E). rewrite H1.
+      split; [reflexivity|]. split.
+      * simpl. rewrite Eadd, Er2. exact H2.
+      * rewrite H3, <- app_assoc. reflexivity.
+    + intros [E [H1 [H2 H3]]]. destruct (guest_entries rest rho g1) as [[g'' E''] r''] eqn:Eg. inv H1.
+      exists E''. split; [reflexivity|]. simpl in H2. rewrite Eadd, Er2 in H2. split; [exact H2|].
+      rewrite <- app_assoc. reflexivity.
+Qed.
+
+(* the part of soundness that survives in the intermediate hosts (their `initial`s dangle until the children arrive) *)
+Definition aligned (h : chart) : Prop :=
+  (forall n, lookup n (c_parent h) <> None -> has_state h n = true) /\
+  (forall n, olookup (Some n) (c_children h) <> None <-> has_state h n = true).
+
+Lemma sound_aligned : forall h, sound h -> aligned h.
+Proof. intros h HS. split; [intros n; apply (sd_pkeys h HS)|intros n; apply (sd_ckeys h HS)]. Qed.
+
+Lemma oset_fresh : forall {V} k (v : V) d, olookup k d = None -> oset k v d = d ++ [(k, v)].
+Proof.
+  intros V k v d; induction d as [|[k0 v0] d IH]; simpl; [reflexivity|].
+  destruct (oeqbP k k0); [discriminate|]. intros H; rewrite IH; auto.
+Qed.
+
+Definition e_par_is (k : option name) (e : entry) : bool := opt_eqb str_eqb (snd e) k.
+Definition kids_of (E : list entry) (k : option name) : list name :=
+  map e_name (filter (e_par_is k) E).
+
+Definition is_new (E : list entry) (k : option name) : bool :=
+  existsb (fun e => opt_eqb str_eqb k (Some (e_name e))) E.
+
+Record host_ext (h : chart) (E : list entry) (h' : chart) : Prop := mkHostExt {
+  he_name : c_name h' = c_name h;
+  he_desc : c_description h' = c_description h;
+  he_pre : c_preamble h' = c_preamble h;
+  he_trans : c_transitions h' = c_transitions h;
+  he_states : c_states h' = c_states h ++ map (fun e => (e_name e, fst e)) E;
+  he_parent : c_parent h' = c_parent h ++ map (fun e => (e_name e, snd e)) E;
+  he_ckeys : map fst (c_children h') = map fst (c_children h) ++ map (fun e => Some (e_name e)) E;
+  he_children : forall k, olookup k (c_children h') =
+      match olookup k (c_children h) with
+      | Some l => Some (l ++ kids_of E k)
+      | None => if is_new E k then Some (kids_of E k) else None
+      end
+}.
+
+Lemma host_ext_nil : forall h, host_ext h [] h.
+Proof.
+  intros h. constructor; simpl; rewrite ?app_nil_r; try reflexivity.
+  intros k. unfold kids_of. simpl. destruct (olookup k (c_children h)); [rewrite app_nil_r|]; reflexivity.
+Qed.
+
+(* one add_state on an aligned host *)
+Lemma add_state_aligned : forall h st p h',
+  aligned h -> add_state h st p = (h', EOk) ->
+  host_ext h [(st, p)] h' /\ aligned h' /\ has_state h (s_name st) = false /\
+  olookup p (c_children h') <> None.
+Proof.
+  intros h st p h' [A1 A2] H.
+  destruct (add_state_inv _ _ _ _ _ H (or_introl eq_refl)) as [Hfresh [_ Hreg]].
+  set (nm := s_name st) in *.
+  assert (Hp0 : lookup nm (c_parent h) = None).
+  { destruct (lookup nm (c_parent h)) eqn:E; [|reflexivity]. rewrite A1 in Hfresh by congruence. discriminate. }
+  assert (Hc0 : olookup (Some nm) (c_children h) = None).
+  { destruct (olookup (Some nm) (c_children h)) eqn:E; [|reflexivity].
+    assert (X : has_state h nm = true) by (apply A2; congruence). congruence. }
+  rewrite (oset_fresh _ _ _ Hc0) in Hreg.
+  destruct (olookup p (c_children h ++ [(Some nm, [])])) as [l|] eqn:El; [|discriminate].
+  destruct Hreg as [-> _].
+  assert (Ech : forall k, olookup k (oset p (l ++ [nm]) (oset (Some nm) [] (c_children h))) =
+                          if opt_eqb str_eqb k p then Some (l ++ [nm])
+                          else if opt_eqb str_eqb k (Some nm) then Some [] else olookup k (c_children h)).
+  { intros k. rewrite !olookup_oset. reflexivity. }
+  assert (El' : l = match olookup p (c_children h) with Some l0 => l0 | None => [] end /\
+                (olookup p (c_children h) = None -> p = Some nm)).
+  { rewrite <- (oset_fresh _ ([] : list name) _ Hc0), olookup_oset in El.
+    destruct (oeqbP p (Some nm)) as [->|Hn].
+    - rewrite Hc0. inv El. auto.
+    - rewrite El. split; [reflexivity|discriminate]. }
+  destruct El' as [El1 El2].
+  split; [|split; [|split]].
+  - constructor; unfold register_chart; cbn [c_name c_description c_preamble c_transitions c_states c_parent c_children];
+      try reflexivity.
+    + simpl. apply dset_fresh. apply has_state_false. exact Hfresh.
+    + simpl. apply dset_fresh. exact Hp0.
+    + simpl. rewrite okeys_oset_in.
+      * rewrite (oset_fresh _ _ _ Hc0), map_app. reflexivity.
+      * rewrite (oset_fresh _ _ _ Hc0). congruence.
+    + intros k. rewrite Ech. unfold kids_of, is_new, e_par_is. cbn [filter existsb snd map]. fold nm.
+      change (e_name (st, p)) with nm.
+      destruct (oeqbP k p) as [->|Hkp].
+      * rewrite oeqb_refl. cbn [map]. change (e_name (st, p)) with nm.
+        destruct (olookup p (c_children h)) as [l0|] eqn:E0.
+        -- subst l. reflexivity.
+        -- rewrite (El2 eq_refl), oeqb_refl. subst l. reflexivity.
+      * destruct (oeqbP p k); [congruence|]. cbn [map]. rewrite orb_false_r.
+        destruct (oeqbP k (Some nm)) as [->|Hkn].
+        -- rewrite Hc0. reflexivity.
+        -- destruct (olookup k (c_children h)); [rewrite app_nil_r|]; reflexivity.
+  - split.
+    + intros n. unfold register_chart. cbn [c_parent]. rewrite has_state_mk, !lookup_dset. fold nm.
+      destruct (seqbP n nm); [reflexivity|]. intros Hn. apply A1 in Hn. unfold has_state in Hn. exact Hn.
+    + intros n. unfold register_chart. cbn [c_children]. rewrite has_state_mk, Ech, lookup_dset. fold nm.
+      destruct (seqbP n nm) as [->|Hn].
+      * split; [reflexivity|]. intros _. destruct (opt_eqb str_eqb (Some nm) p); [discriminate|].
+        rewrite oeqb_refl. discriminate.
+      * destruct (oeqbP (Some n) p) as [<-|Hnp].
+        -- split; [|discriminate]. intros _.
+           destruct (olookup (Some n) (c_children h)) eqn:E0.
+           ++ assert (X : has_state h n = true) by (apply A2; congruence). exact X.
+           ++ specialize (El2 eq_refl). congruence.
+        -- destruct (oeqbP (Some n) (Some nm)); [congruence|]. rewrite A2. unfold has_state. tauto.
+  - exact Hfresh.
+  - unfold register_chart. cbn [c_children]. rewrite Ech, oeqb_refl. discriminate.
+Qed.
+
+Lemma kids_of_cons : forall e E k,
+  kids_of (e :: E) k = (if e_par_is k e then [e_name e] else []) ++ kids_of E k.
+Proof. intros e E k. unfold kids_of. cbn [filter]. destruct (e_par_is k e); reflexivity. Qed.
+
+Lemma host_ext_cons : forall h e h1 E h',
+  host_ext h [e] h1 -> olookup (snd e) (c_children h1) <> None -> host_ext h1 E h' -> host_ext h (e :: E) h'.
+Proof.
+  intros h e h1 E h' H1 Hpk H2. destruct H1, H2. constructor; try congruence.
+  - rewrite he_states1, he_states0, <- app_assoc. reflexivity.
+  - rewrite he_parent1, he_parent0, <- app_assoc. reflexivity.
+  - rewrite he_ckeys1, he_ckeys0, <- app_assoc. reflexivity.
+  - intros k. rewrite he_children1, he_children0.
+    assert (K1 : kids_of [e] k = if e_par_is k e then [e_name e] else []).
+    { unfold kids_of. cbn [filter]. destruct (e_par_is k e); reflexivity. }
+    assert (N1 : is_new [e] k = opt_eqb str_eqb k (Some (e_name e))).
+    { unfold is_new. cbn [existsb]. apply orb_false_r. }
+    assert (N2 : is_new (e :: E) k = opt_eqb str_eqb k (Some (e_name e)) || is_new E k) by reflexivity.
+    rewrite K1, N1, N2, kids_of_cons.
+    destruct (olookup k (c_children h)) as [l|] eqn:Ek0.
+    + rewrite <- app_assoc. reflexivity.
+    + destruct (opt_eqb str_eqb k (Some (e_name e))) eqn:Ek; cbn [orb]; [reflexivity|].
+      destruct (e_par_is k e) eqn:Ep; [|reflexivity]. exfalso. apply Hpk.
+      unfold e_par_is in Ep. apply oeqb_eq in Ep. rewrite Ep, he_children0, Ek0, N1. reflexivity.
+Qed.
+
+(* goal 2, host side: what the successful add_state calls do *)
+Lemma add_entries_spec : forall E h h',
+  aligned h -> add_entries h E = (h', EOk) ->
+  host_ext h E h' /\ aligned h' /\
+  (forall e, In e E -> olookup (snd e) (c_children h') <> None).
+Proof.
+  induction E as [|e E IH]; intros h h' HA H; simpl in H.
+  - inv H. split; [apply host_ext_nil|]. split; [exact HA|intros e []].
+  - destruct (add_state h (fst e) (snd e)) as [h1 r] eqn:Eadd.
+    destruct (negb (eres_eqb r EOk)) eqn:Er; [apply eres_ok_true in Er; inv H; congruence|].
+    apply eres_ok_false in Er. subst r.
+    destruct (add_state_aligned _ _ _ _ HA Eadd) as [H1 [H2 [H3 H4]]].
+    destruct (IH _ _ H2 H) as [H5 [H6 H7]].
+    split; [|split; [exact H6|]].
+    + eapply host_ext_cons; [|exact H4|exact H5]. destruct e; exact H1.
+    + intros e' [<-|Hin]; [|apply H7; exact Hin].
+      rewrite (he_children _ _ _ H5). destruct (olookup (snd e) (c_children h1)); [discriminate|congruence].
+Qed.
+
+(* sufficient conditions for every add_state to succeed, in terms of the host's state dictionary alone *)
+Fixpoint entries_ok (S : list (name * state)) (E : list entry) : Prop :=
+  match E with
+  | [] => True
+  | e :: E' =>
+      lookup (e_name e) S = None /\
+      (exists q ps, snd e = Some q /\ q <> "" /\ lookup q S = Some ps /\
+                    is_composite (s_kind ps) = true /\
+                    (is_history (s_kind (fst e)) = true -> s_kind ps = KCompound)) /\
+      entries_ok (S ++ [(e_name e, fst e)]) E'
+  end.
+
+Lemma add_state_ok_cond : forall h st q ps,
+  aligned h -> lookup (s_name st) (c_states h) = None -> q <> "" ->
+  lookup q (c_states h) = Some ps -> is_composite (s_kind ps) = true ->
+  (is_history (s_kind st) = true -> s_kind ps = KCompound) ->
+  exists h', add_state h st (Some q) = (h', EOk).
+Proof.
+  intros h st q ps [A1 A2] Hfresh Hq Hps Hcomp Hhist. unfold add_state.
+  assert (E1 : has_state h (s_name st) = false) by (apply has_state_false; exact Hfresh). rewrite E1.
+  assert (E2 : no_parent (Some q) = false).
+  { destruct (no_parent (Some q)) eqn:E; [|reflexivity]. apply no_parent_true in E. destruct E as [E|E]; congruence. }
+  rewrite E2. unfold state_for. rewrite Hps, Hcomp. cbn [negb].
+  assert (E3 : is_history (s_kind st) && negb (kind_eqb (s_kind ps) KCompound) = false).
+  { destruct (is_history (s_kind st)) eqn:E; [|reflexivity]. rewrite (Hhist eq_refl). reflexivity. }
+  rewrite E3. cbn [c_children with_children with_parent with_states c_parent c_states].
+  rewrite olookup_oset.
+  destruct (oeqbP (Some q) (Some (s_name st))) as [E|_]; [inv E; congruence|].
+  destruct (olookup (Some q) (c_children h)) as [l|] eqn:El; [eauto|].
+  exfalso. assert (X : has_state h q = true) by (unfold has_state; rewrite Hps; reflexivity).
+  apply (proj2 (A2 q)) in X. apply X. exact El.
+Qed.
+
+Lemma add_entries_ok : forall E h,
+  aligned h -> entries_ok (c_states h) E -> exists h', add_entries h E = (h', EOk).
+Proof.
+  induction E as [|e E IH]; intros h HA HE; simpl; [eauto|].
+  destruct HE as [Hfresh [[q [ps [Hp [Hq [Hps [Hc Hh]]]]]] Hrest]].
+  destruct (add_state_ok_cond h (fst e) q ps HA Hfresh Hq Hps Hc Hh) as [h1 H1].
+  assert (H1' : add_state h (fst e) (snd e) = (h1, EOk)) by (rewrite Hp; exact H1).
+  clear H1. rename H1' into H1. rewrite H1. cbn [eres_eqb negb].
+  destruct (add_state_aligned _ _ _ _ HA H1) as [H2 [H3 _]].
+  apply IH; [exact H3|]. rewrite (he_states _ _ _ H2). exact Hrest.
+Qed.
+
+Lemma guest_entries_length : forall names rho g g' E,
+  guest_entries names rho g = (g', E, EOk) -> length E = length names.
+Proof.
+  induction names as [|n rest IH]; intros rho g g' E H; simpl in H.
+  - inv H. reflexivity.
+  - destruct (rename_state g n (rho_apply rho n)) as [g1 r1].
+    destruct (negb (eres_eqb r1 EOk)) eqn:Er; [apply eres_ok_true in Er; inv H; congruence|].
+    destruct (state_for g1 (rho_apply rho n)); [|inv H].
+    destruct (guest_entries rest rho g1) as [[g'' E''] r''] eqn:Eg. inv H. simpl. f_equal. eapply IH; eauto.
+Qed.
+
+(* goal 2: copy_states, when every step succeeds *)
+Theorem copy_states_spec : forall names rho g h added g' h' added',
+  aligned h ->
+  copy_states names rho g h added = (g', h', added', EOk) ->
+  added' = added ++ map (rho_apply rho) names /\
+  exists E, guest_entries names rho g = (g', E, EOk) /\ length E = length names /\
+            host_ext h E h' /\ aligned h'.
+Proof.
+  intros names rho g h added g' h' added' HA H.
+  apply copy_states_decompose in H. destruct H as [E [H1 [H2 H3]]].
+  split; [exact H3|]. exists E. split; [exact H1|].
+  destruct (add_entries_spec _ _ _ HA H2) as [H4 [H5 _]]. split; [|split; assumption].
+  eapply guest_entries_length; eauto.
+Qed.
+
+(* ... and sufficient conditions for every step to succeed *)
+Theorem copy_states_ok : forall names rho g h added g' E,
+  aligned h ->
+  guest_entries names rho g = (g', E, EOk) -> entries_ok (c_states h) E ->
+  exists h', copy_states names rho g h added = (g', h', added ++ map (rho_apply rho) names, EOk).
+Proof.
+  intros names rho g h added g' E HA H1 H2.
+  destruct (add_entries_ok E h HA H2) as [h' H3]. exists h'.
+  apply copy_states_decompose. exists E. auto.
+Qed.
+
+(* ================================================================== 4. images of a chart under a renaming (guest side) *)
+Lemma map_state_ext : forall r r' s, (forall x, r x = r' x) -> map_state r s = map_state r' s.
+Proof.
+  intros r r' [nm k i m en ex pre post iv] H. unfold map_state. simpl. rewrite (H nm).
+  destruct i as [i|], m as [m|]; simpl; rewrite ?H; reflexivity.
+Qed.
+
+Lemma map_state_id : forall s, map_state (fun x => x) s = s.
+Proof. intros [nm k [i|] [m|] en ex pre post iv]; reflexivity. Qed.
+
+Lemma map_state_comp : forall r1 r2 s, map_state r2 (map_state r1 s) = map_state (fun x => r2 (r1 x)) s.
+Proof. intros r1 r2 [nm k [i|] [m|] en ex pre post iv]; reflexivity. Qed.
+
+Lemma map_trans_ext : forall r r' t, (forall x, r x = r' x) -> map_trans r t = map_trans r' t.
+Proof.
+  intros r r' [src [tg|] ev g a p pre post iv] H; unfold map_trans; simpl; rewrite ?H; reflexivity.
+Qed.
+
+Lemma map_trans_id : forall t, map_trans (fun x => x) t = t.
+Proof. intros [src [tg|] ev g a p pre post iv]; reflexivity. Qed.
+
+Lemma map_trans_comp : forall r1 r2 t, map_trans r2 (map_trans r1 t) = map_trans (fun x => r2 (r1 x)) t.
+Proof. intros r1 r2 [src [tg|] ev g a p pre post iv]; reflexivity. Qed.
+
+Lemma option_map_ext' : forall {A B} (f g : A -> B) o, (forall x, f x = g x) -> option_map f o = option_map g o.
+Proof. intros A B f g [x|] H; simpl; [rewrite H|]; reflexivity. Qed.
+
+(* c' is the image of c under r, as far as lookups go (the orders of the dictionaries and of the children
+   lists are not part of it) *)
+Record img (r : name -> name) (c c' : chart) : Prop := mkImg {
+  im_has : forall x, has_state c' x = true <-> exists k, has_state c k = true /\ x = r k;
+  im_states : forall k s, lookup k (c_states c) = Some s -> lookup (r k) (c_states c') = Some (map_state r s);
+  im_parent : forall k p, lookup k (c_parent c) = Some p -> lookup (r k) (c_parent c') = Some (option_map r p);
+  im_trans : c_transitions c' = map (map_trans r) (c_transitions c);
+  im_inj : forall a b, has_state c a = true -> has_state c b = true -> r a = r b -> a = b;
+  im_len : length (c_states c') = length (c_states c)
+}.
+
+Lemma img_id : forall c, img (fun x => x) c c.
+Proof.
+  intros c. constructor; try reflexivity.
+  - intros x. split; [eauto|]. intros [k [H ->]]. exact H.
+  - intros k s H. rewrite map_state_id. exact H.
+  - intros k [p|] H; exact H.
+  - symmetry. apply map_id_in. intros t _. apply map_trans_id.
+  - auto.
+Qed.
+
+Lemma img_ext : forall r r' c c', (forall x, r x = r' x) -> img r c c' -> img r' c c'.
+Proof.
+  intros r r' c c' E [H1 H2 H3 H4 H5 H6]. constructor; [| | | | |exact H6].
+  - intros x. rewrite H1. split; intros [k [Ha Hb]]; exists k; (split; [exact Ha|]); congruence.
+  - intros k s H. rewrite <- E, <- (map_state_ext r r' s E). apply H2; exact H.
+  - intros k p H. rewrite <- E, <- (option_map_ext' r r' p E). apply H3; exact H.
+  - rewrite H4. apply map_ext. intros t. apply map_trans_ext; exact E.
+  - intros a b Ha Hb Hr. rewrite <- !E in Hr. apply H5; assumption.
+Qed.
+
+Lemma img_comp : forall r1 r2 c0 c c', img r1 c0 c -> img r2 c c' -> img (fun x => r2 (r1 x)) c0 c'.
+Proof.
+  intros r1 r2 c0 c c' [A1 A2 A3 A4 A5 A6] [B1 B2 B3 B4 B5 B6]. constructor.
+  - intros x. rewrite B1. split.
+    + intros [k [Hk ->]]. apply A1 in Hk. destruct Hk as [k0 [Hk0 ->]]. eauto.
+    + intros [k0 [Hk0 ->]]. exists (r1 k0). split; [|reflexivity]. apply A1. eauto.
+  - intros k s H. rewrite <- map_state_comp. apply B2, A2; exact H.
+  - intros k p H. rewrite (B3 _ _ (A3 _ _ H)). f_equal. destruct p; reflexivity.
+  - rewrite B4, A4, map_map. apply map_ext. intros t. apply map_trans_comp.
+  - intros a b Ha Hb Hr. apply A5; [assumption|assumption|]. apply B5; [| |exact Hr]; apply A1; eauto.
+  - congruence.
+Qed.
+
+Lemma length_dset_fresh : forall {V} k (v : V) d, lookup k d = None -> length (dset k v d) = S (length d).
+Proof. intros V k v d H. rewrite (dset_fresh _ _ _ H), app_length. simpl. lia. Qed.
+
+(* one successful rename_state *)
+Lemma img_rename : forall c old new c',
+  sound c -> fields_ok c -> rename_state c old new = (c', EOk) -> img (ren old new) c c'.
+Proof.
+  intros c old new c' HS HF H.
+  destruct (rename_state_result _ _ _ _ _ HS H)
+    as [[-> [E|[_ ->]]]|[_ [Hne [Hnew [st [po [l [lo [Hst [Hpo [Hpo1 [Hpo2 [Hl [Hcnt [Hlo ->]]]]]]]]]]]]]]].
+  - discriminate.
+  - eapply img_ext; [|apply img_id]. intros x. symmetry. apply ren_refl.
+  - pose proof (rnd_states c old new st po l lo HS) as RS.
+    pose proof (rnd_has_state c old new st po l lo HS) as RH.
+    constructor.
+    + intros x. rewrite RH. split.
+      * destruct (seqbP x new) as [->|Hx].
+        -- intros _. exists old. split; [unfold has_state; rewrite Hst; reflexivity|symmetry; apply ren_old].
+        -- destruct (seqbP x old) as [->|Hx2]; simpl; [discriminate|]. intros Hs. exists x.
+           split; [exact Hs|symmetry; apply ren_id; exact Hx2].
+      * intros [k [Hk ->]]. unfold ren. destruct (seqbP k old) as [->|Hk2].
+        -- rewrite seqb_refl. reflexivity.
+        -- destruct (seqbP k old); [congruence|]. rewrite Hk. simpl. apply orb_true_r.
+    + intros k s Hk. rewrite RS.
+      destruct (HF _ _ Hk) as [F1 F2].
+      rewrite (map_state_rename_refs old new k s F1 F2 (sd_keyname c HS _ _ Hk)).
+      unfold ren. destruct (seqbP k old) as [->|Hk2].
+      * rewrite seqb_refl. assert (s = st) by congruence. subst s. reflexivity.
+      * assert (Hkn : k <> new).
+        { intros ->. unfold has_state in Hnew. rewrite Hk in Hnew. discriminate. }
+        destruct (seqbP k new); [congruence|]. destruct (seqbP k old); [congruence|]. rewrite Hk. reflexivity.
+    + intros k p Hk. apply (rnd_parent_r c old new st po l lo HS Hnew Hpo Hpo1 Hpo2 Hl _ _ Hk).
+    + unfold renamed. cbn [c_transitions]. apply map_ext. apply rn_trans_map.
+    + intros a b Ha Hb. apply (rnd_r_inj c old new Hnew); assumption.
+    + destruct (C17_structure c old new _ HS HF Hne H) as [_ [_ [_ [_ [_ [_ [_ [_ [_ [Hk _]]]]]]]]]].
+      rewrite <- (map_length fst (c_states (renamed c old new st po l lo))), Hk, app_length. simpl.
+      rewrite <- (map_length fst (c_states c)).
+      assert (Hin : In old (map fst (c_states c))).
+      { apply has_state_In. unfold has_state; rewrite Hst; reflexivity. }
+      pose proof (remove_first_length old _ Hin). lia.
+Qed.
+
+(* ================================================================== 5. breadth-first order *)
+(* children lists after one rename_state: the renamed child goes to the end of its parent's list *)
+Lemma rename_children_for : forall c old new c',
+  sound c -> old <> new -> rename_state c old new = (c', EOk) ->
+  forall k, has_state c k = true ->
+    children_for c' (ren old new k) =
+    if ostr_eqb (parent_for c old) (Some k) then remove_first old (children_for c k) ++ [new]
+    else children_for c k.
+Proof.
+  intros c old new c' HS Hne H k Hk.
+  destruct (rename_state_result _ _ _ _ _ HS H)
+    as [[_ [E|[_ E]]]|[_ [_ [Hnew [st [po [l [lo [Hst [Hpo [Hpo1 [Hpo2 [Hl [Hcnt [Hlo ->]]]]]]]]]]]]]]];
+    [discriminate|congruence|].
+  unfold children_for at 1. rewrite (rnd_children c old new st po l lo HS).
+  rewrite (parent_for_lookup _ _ _ Hpo). unfold ren.
+  destruct (seqbP k old) as [->|Hko].
+  - rewrite oeqb_refl. destruct (ostr_eqb po (Some old)) eqn:E; [apply ostr_eqb_eq in E; congruence|].
+    symmetry. apply children_for_lookup. exact Hlo.
+  - assert (Hkn : k <> new) by (intros ->; congruence).
+    destruct (oeqbP (Some k) (Some new)) as [E|_]; [congruence|].
+    destruct (oeqbP (Some k) (Some old)) as [E|_]; [congruence|].
+    unfold ostr_eqb. destruct (oeqbP (Some k) po) as [E|E].
+    + destruct (oeqbP po (Some k)); [|congruence]. rewrite <- E in Hl.
+      rewrite (children_for_lookup _ _ _ Hl). reflexivity.
+    + destruct (oeqbP po (Some k)); [congruence|]. reflexivity.
+Qed.
+
+Lemma bfs_map : forall (r : name -> name) c c' (P : name -> Prop),
+  (forall x, P x -> children_for c' (r x) = map r (children_for c x)) ->
+  (forall x, P x -> forall y, In y (children_for c x) -> P y) ->
+  forall f q, (forall x, In x q -> P x) -> bfs c' f (map r q) = map r (bfs c f q).
+Proof.
+  intros r c c' P Hch Hcl f; induction f as [|f IH]; intros q Hq; [reflexivity|].
+  destruct q as [|n q]; [reflexivity|]. simpl.
+  rewrite (Hch n) by (apply Hq; left; reflexivity). rewrite map_app, <- map_app. f_equal.
+  apply IH. intros x Hx. apply in_app_or in Hx. destruct Hx as [Hx|Hx]; [apply Hq; right; exact Hx|].
+  apply (Hcl n); [apply Hq; left; reflexivity|exact Hx].
+Qed.
+
+(* every element of the BFS output has its parent in the queue or earlier in the output *)
+Fixpoint parents_before (c : chart) (seen out : list name) : Prop :=
+  match out with
+  | [] => True
+  | y :: out' => (exists p, lookup y (c_parent c) = Some (Some p) /\ In p seen) /\
+                 parents_before c (seen ++ [y]) out'
+  end.
+
+Lemma parents_before_incl : forall c out seen seen',
+  incl seen seen' -> parents_before c seen out -> parents_before c seen' out.
+Proof.
+  intros c out; induction out as [|y out IH]; intros seen seen' Hi H; simpl in *; [exact I|].
+  destruct H as [[p [H1 H2]] H3]. split; [exists p; auto|].
+  eapply IH; [|exact H3]. intros x Hx. apply in_app_or in Hx. apply in_or_app. destruct Hx; auto.
+Qed.
+
+Lemma parents_before_app : forall c A B seen,
+  parents_before c seen A -> parents_before c (seen ++ A) B -> parents_before c seen (A ++ B).
+Proof.
+  intros c A; induction A as [|y A IH]; intros B seen HA HB; simpl in *.
+  - rewrite app_nil_r in HB. exact HB.
+  - destruct HA as [H1 H2]. split; [exact H1|]. apply IH; [exact H2|]. rewrite <- app_assoc. exact HB.
+Qed.
+
+Lemma parents_before_all : forall c out seen,
+  (forall y, In y out -> exists p, lookup y (c_parent c) = Some (Some p) /\ In p seen) ->
+  parents_before c seen out.
+Proof.
+  intros c out; induction out as [|y out IH]; intros seen H; simpl; [exact I|].
+  split; [apply H; left; reflexivity|]. apply IH. intros z Hz.
+  destruct (H z (or_intror Hz)) as [p [H1 H2]]. exists p. split; [exact H1|apply in_or_app; left; exact H2].
+Qed.
+
+Lemma bfs_parents_before : forall c, sound c -> forall f q, parents_before c q (bfs c f q).
+Proof.
+  intros c HS f; induction f as [|f IH]; intros q; [exact I|].
+  destruct q as [|n q]; [exact I|]. rewrite bfs_S. apply parents_before_app.
+  - apply parents_before_all. intros y Hy. exists n. split; [|left; reflexivity].
+    apply sound_child_parent; assumption.
+  - eapply parents_before_incl; [|apply IH]. intros x Hx. apply in_app_or in Hx. simpl.
+    destruct Hx as [Hx|Hx]; [right; apply in_or_app; left; exact Hx|right; apply in_or_app; right; exact Hx].
+Qed.
+
+(* the nodes BFS takes out of its queue *)
+Fixpoint deq (c : chart) (fuel : nat) (queue : list name) : list name :=
+  match fuel, queue with
+  | S f, n :: q => n :: deq c f (q ++ children_for c n)
+  | _, _ => []
+  end.
+
+Lemma deq_incl : forall c f q x, In x (deq c f q) -> In x (q ++ bfs c f q).
+Proof.
+  intros c f; induction f as [|f IH]; intros q x H; [destruct H|].
+  destruct q as [|n q]; [destruct H|]. simpl in H. rewrite bfs_S. destruct H as [<-|H]; [left; reflexivity|].
+  right. apply IH in H. rewrite <- app_assoc in H. exact H.
+Qed.
+
+Definition child_of (c : chart) (k : name) (m : name) : bool := ostr_eqb (parent_for c m) (Some k).
+
+Lemma filter_child_of_children : forall c, sound c -> forall n k,
+  filter (child_of c k) (children_for c n) = if str_eqb n k then children_for c n else [].
+Proof.
+  intros c HS n k.
+  assert (H : forall l, (forall y, In y l -> lookup y (c_parent c) = Some (Some n)) ->
+                        filter (child_of c k) l = if str_eqb n k then l else []).
+  { induction l as [|y l IH]; intros Hl; simpl; [destruct (str_eqb n k); reflexivity|].
+    unfold child_of at 1. rewrite (parent_for_lookup _ _ _ (Hl y (or_introl eq_refl))).
+    rewrite IH by (intros z Hz; apply Hl; right; exact Hz).
+    unfold ostr_eqb. simpl. destruct (str_eqb n k); reflexivity. }
+  apply H. intros y Hy. apply sound_child_parent; assumption.
+Qed.
+
+Lemma bfs_filter_child_of : forall c, sound c -> forall k f q,
+  NoDup (q ++ bfs c f q) ->
+  filter (child_of c k) (bfs c f q) = if mem k (deq c f q) then children_for c k else [].
+Proof.
+  intros c HS k f; induction f as [|f IH]; intros q Hnd; [reflexivity|].
+  destruct q as [|n q]; [reflexivity|]. rewrite bfs_S in *. cbn [deq mem].
+  rewrite filter_app, (filter_child_of_children c HS).
+  assert (Hnd' : NoDup ((q ++ children_for c n) ++ bfs c f (q ++ children_for c n))).
+  { rewrite <- app_assoc. simpl in Hnd. inv Hnd. assumption. }
+  rewrite (IH _ Hnd'). rewrite (seqb_sym k n).
+  destruct (seqbP n k) as [->|Hn]; simpl; [|reflexivity].
+  assert (E : mem k (deq c f (q ++ children_for c k)) = false).
+  { apply mem_false_iff. intros Hin. apply deq_incl in Hin. rewrite <- app_assoc in Hin.
+    simpl in Hnd. inv Hnd. auto. }
+  rewrite E, app_nil_r. reflexivity.
+Qed.
+
+(* restricted to the children of one node of the subtree, the BFS order is that node's children list *)
+Theorem descendants_filter_children : forall c, sound c -> forall n k,
+  k = n \/ In k (descendants_for c n) ->
+  filter (child_of c k) (descendants_for c n) = children_for c k.
+Proof.
+  intros c HS n k Hk. unfold descendants_for.
+  assert (Hac : antichain c [n]).
+  { split; [constructor; [intros []|constructor]|].
+    intros a b [<-|[]] [<-|[]]. apply sound_anc_irrefl; assumption. }
+  pose proof (bfs_NoDup c HS (S (length (c_states c))) [n] Hac) as Hnd.
+  rewrite (bfs_filter_child_of c HS k _ _ Hnd).
+  destruct (mem k (deq c (S (length (c_states c))) [n])) eqn:E; [reflexivity|].
+  destruct (children_for c k) as [|x l] eqn:Ech; [reflexivity|]. exfalso.
+  assert (Hx : In x (children_for c k)) by (rewrite Ech; left; reflexivity).
+  pose proof (sound_child_parent c HS _ _ Hx) as Hp.
+  assert (Hd : In x (descendants_for c n)).
+  { apply (descendants_for_spec c HS). destruct Hk as [->|Hk].
+    - apply anc_parent. exact Hp.
+    - eapply anc_step; [exact Hp|]. apply (descendants_for_spec c HS). exact Hk. }
+  assert (Hf : In x (filter (child_of c k) (descendants_for c n))).
+  { apply filter_In. split; [exact Hd|]. unfold child_of. rewrite (parent_for_lookup _ _ _ Hp). apply oeqb_refl. }
+  unfold descendants_for in Hf. rewrite (bfs_filter_child_of c HS k _ _ Hnd), E in Hf. destruct Hf.
+Qed.
+
+Lemma descendants_parents_before : forall c, sound c -> forall n,
+  parents_before c [n] (descendants_for c n).
+Proof. intros c HS n. apply bfs_parents_before. exact HS. Qed.
